@@ -11,7 +11,7 @@ CHECKS = {
             "bank and IBC refund ledgers of the simulator are ground truth; unsolicited transfers to the contract are not generated", "6 C02"),
     "C03": ("token-factory supply == State LST total; contract LST balance == pending batch + refundable LST; each stake delivers exactly the minted amount to the chosen recipient on either chain and to nobody else; each submission burns the batch total; both builds",
             "token-factory and bank stubs are ground truth", "6 C03"),
-    "C04": ("per-transaction refinement against independent 256-bit arithmetic: floor mint, refusal conditions, floor set-aside, rate monotonicity, no round-trip profit, along histories with totals seeded across magnitudes and rates",
+    "C04": ("per-transaction refinement against independent 256-bit arithmetic: floor mint, refusal conditions, floor set-aside, rate monotonicity, no round-trip profit, along histories with totals seeded across magnitudes and rates; a quarter of the cases sample the two public ratio helpers directly over the whole 128-bit range",
             "the pure-arithmetic forall over all 128-bit inputs is sampled at reachable totals and rounding-boundary amounts, not enumerated", "6 C04"),
     "C05": ("model of requests per batch built from real LiquidUnstake calls; payouts compared with floor(received*own/total) from bank effects; second withdrawals, strangers, slashed and generous deliveries, all orders",
             "bank effects of the runtime stub are ground truth", "6 C05"),
@@ -21,9 +21,9 @@ CHECKS = {
             "IBC core never replays an acknowledgement for the same (channel, sequence); lost callbacks only in the dedicated configuration", "6 C07"),
     "C08": ("intruder operations (message kind x principal) interleaved in every reachable state; unauthorised => error and storage byte-identical; withdraw pays the caller's own request only",
             "principals are those the statement lists; addresses are valid bech32 under the chain prefix", "6 C08"),
-    "C09": ("the simulator's own ibc-hooks implementation (independent SHA-256/bech32 recipe) executes the contract from the derived account: genuine staker/collector accepted, impostors (other account, other channel, role swap, direct call) refused, across channel/staker/collector/prefix configurations; derivation compared input by input",
+    "C09": ("the simulator's own ibc-hooks implementation (independent SHA-256/bech32 recipe) executes the contract from the derived account: genuine staker/collector accepted, impostors (other account, other channel, role swap, direct call) refused, across channel (incl. non-canonical spellings) / staker / collector (incl. upper-case) configurations and the prefix written by the 0.4.20->1.0.0 migration; derivation compared input by input; every prefix accepted by validation must be derivable",
             "collision freedom beyond sampled pairs rests on SHA-256 (assumed)", "6 C09"),
-    "C10": ("fresh instance halted; while halted the six guarded operations fail for arguments that would otherwise succeed; raw-storage diff of halt == flag only; resume == flag + three totals exactly; only admin resumes",
+    "C10": ("fresh instance halted; while halted the six guarded operations fail for arguments that would otherwise succeed; raw-storage diff of halt == flag only; resume == flag + three totals exactly; only admin resumes; no configuration update or migration lifts a halt",
             "raw storage decoded with serde_json::Value", "6 C10"),
     "C11": ("fee == floor(rate*reward/100000) by independent arithmetic from bank/IBC effects of each reward transaction; treasury paid in the same transaction or accrual; FeeWithdraw bounded by accrued across treasury/config changes",
             "zero-amount bank sends accepted by the stub; zero-amount IBC transfers rejected", "6 C11"),
